@@ -395,6 +395,9 @@ def assemble(vacuity=False, only_files=None, extra_theorems=True, extracted=None
                 A.add("// ---------------------------------------------------------------- " + s[8:])
                 A.add("pub mod x_" + cur_file + " {")
                 A.add("use super::*;")
+                A.add("use crate::serde::de::Error as _;")
+                if cur_file == "keypair":
+                    A.add("use crate::serde::{Deserialize as _, Serialize as _};   // in scope inside the serde impls of the source")
             i += 1
             continue
         if skip_file:
@@ -612,7 +615,7 @@ def run_verus(path, rlimit=None, extra=None, timeout=1800):
     cmd += ["--", "--error-format=json"]
     t0 = time.time()
     try:
-        p = subprocess.run(cmd, capture_output=True, text=True, timeout=timeout)
+        p = subprocess.run(cmd, capture_output=True, text=True, timeout=timeout, cwd=os.path.dirname(os.path.abspath(path)))
     except subprocess.TimeoutExpired:
         raise Undecided("verus timed out")
     wall = time.time() - t0
